@@ -90,7 +90,21 @@ def _jobs(tier, seed):
         for w in words:
             inputs.add(" " + "  ".join(w))
             inputs.add("\n".join(w) + " \n")
+            # layout in front of CONTIGUOUS characters: tokens of different length start right after the same layout (finding D30)
+            inputs.add(" " + w)
+            inputs.add("  " + w[:1] + " " + w[1:] + " ")
         jobs.append({"g": g, "inputs": sorted(inputs), "origin": "det", "consume": True, "overlap": True})
+    # one TERMINAL matching with different lengths from different starts up to the same end (/ab|b/): both shifts reach the same GSS head
+    # (finding D30: the head's layout_content was that of the first token shifted to it)
+    X, Y, Z = ("X", "re", "ab|b"), ("Y", "re", "a"), ("Z", "re", "abc|c")
+    for prods, terms in (([("S", ("S", "I")), ("S", ("I",)), ("I", ("X",)), ("I", ("Y",))], [X, Y]),
+                         ([("S", ("S", "I")), ("S", ("I",)), ("I", ("X",)), ("I", ("Y",)), ("I", ("Z",))], [X, Y, Z]),
+                         ([("S", ("I", "I")), ("S", ("I",)), ("I", ("X",)), ("I", ("Y",))], [X, Y])):
+        words = ["".join(w) for n in range(1, 5) for w in itertools.product("abc" if len(terms) == 3 else "ab", repeat=n)]
+        inputs = set()
+        for w in words[:60]:
+            inputs |= {w, " " + w, "  " + w[:2] + " " + w[2:] + " ", "\n" + w + "\n"}
+        jobs.append({"g": {"prods": prods, "terms": terms}, "inputs": sorted(inputs), "origin": "det", "consume": True, "overlap": True})
     # reduce/reduce families (gen.rr_family): GLR heads in different states over the same input; all token strings <= 3 (sampled) + sentences
     rng = random.Random(31341)
     for g in gen.rr_family(p["nrr"]):
